@@ -21,10 +21,11 @@ COMPONENTS_STUB = ['restart requests and step-size proposals come from the scrip
 ASSUMPTIONS = [
     'contiguity is judged up to 4*eps*max(|t|,1)*(P+1): the first block computes t0+sum(dt), later blocks t+dt',
     'step count compared with the smallest N with t0+N*dt >= Tend-2*eps*max(|t0|,|Tend|,1)*N',
-    'controller_MPI flavour of this property is exercised by C08; controller_ParaDiag_nonMPI is not simulated here',
+    'controller_MPI flavour of this property is exercised by C08',
+    'controller_ParaDiag_nonMPI (fixed step, no restarts): inside a block the start value equals the predecessor\'s end value up to 1e3*restol only (all-at-once solve), exactly across blocks',
 ]
 PROBES = ['restart_at_later_slot', 'restart_near_Tend', 'same_step_restarted_twice', 'partial_last_block', 'step_size_changed',
-          'two_steps_same_end_time', 'run_aborted_ConvergenceError', 'fixed_step_run', 'continuation_leg_on_same_controller', 'forced_stop_on_later_step']
+          'two_steps_same_end_time', 'run_aborted_ConvergenceError', 'fixed_step_run', 'continuation_leg_on_same_controller', 'forced_stop_on_later_step', 'paradiag_run']
 
 
 def plan(tier):
@@ -35,6 +36,8 @@ def plan(tier):
 
 def generate(seed, tier, index):
     r = rng_for(seed, PROP, index)
+    if r.random() < 0.06:
+        return workloads.paradiag_config(r)
     return workloads.history_config(r, big=(tier == 'thorough'))
 
 
@@ -46,6 +49,8 @@ def execute(sc):
         oracles.probes_c06(leg, sc)
     if len(tr.legs) > 1:
         res.probe('continuation_leg_on_same_controller')
+    if sc['config'].get('controller_class') == 'ParaDiag':
+        res.probe('paradiag_run')
     res['nontrivial'] = len(tr.ctx.blocks) >= 3 or any(k in res['faults'] for k in ('restart_request', 'dt_proposal'))
     return res.finish(log)
 
